@@ -14,7 +14,8 @@ RULE = ('(1) arbitrary text (Hypothesis strings over ZINC tokens and arbitrary c
         'of the last literal on a line removed, illegal escape \\q or \\u12G4 or trailing backslash inserted, an opening or '
         'closing bracket of a list/dict/nested grid removed, a column/meta/dict tag renamed to start with an upper-case '
         'letter or digit or to contain "-", a 3.0 document holding NA/list/dict/grid/XStr relabelled ver 2.0 - must raise '
-        'ZincParseException. Non-trivial = the text keeps an intact version header (reaches the grammar) or is a class-3 '
+        'ZincParseException, under single=False and single=True, also when the broken grid is the second grid of a document '
+        'whose first grid is well-formed. Non-trivial = the text keeps an intact version header (reaches the grammar) or is a class-3 '
         'breaker; distinct by text.')
 ASSUMPTIONS = ['input is str (charset errors of bytes input are not this property)', 'bracket nesting <= 3',
                'normal parses of the generated inputs take milliseconds; only a case that exceeds 20 s and then 90 s on a second attempt is reported as non-terminating']
@@ -106,7 +107,7 @@ def _terminating(fn, case):
     return ('inconclusive', None)
 
 
-def check_text(text, acc=None, want_reject=False, what=None):
+def check_text(text, acc=None, want_reject=False, what=None, broken_class=False):
     """the oracle of parts 1-3; returns 'parsed' | 'rejected' | 'inconclusive'"""
     import hszinc
     from hszinc.zincparser import ZincParseException
@@ -132,9 +133,11 @@ def check_text(text, acc=None, want_reject=False, what=None):
             if not (1 <= line <= len(lines)) or not (1 <= col <= len(lines[line - 1]) + 1):
                 raise Violation('position', case, 'line %d col %d is outside the text (%d lines, that line has %d chars)' % (
                     line, col, len(lines), len(lines[line - 1]) if 1 <= line <= len(lines) else -1))
-        # a document that is rejected as a whole must not yield a grid through single=True either
+        # a structurally broken document (one of the classes the property lists) must not yield a grid through
+        # single=True either; for other rejected texts the property does not say what single=True does with the
+        # grids after the first, only that nothing but ZincParseException escapes
         k1, v1 = _terminating(lambda: hszinc.parse(text, mode=hszinc.MODE_ZINC, single=True), case)
-        if k1 == 'ok':
+        if k1 == 'ok' and (want_reject or broken_class):
             raise Violation('rejected-document-yields-grid', case, 'parse(single=False) rejects the document but parse(single=True) returned %s' % (
                 type(v1).__name__,))
         if k1 == 'exc' and not isinstance(v1, ZincParseException):
@@ -384,6 +387,13 @@ def _run(part, args, env, acc, tier):
                     try:
                         if check_text(t, acc, want_reject=True, what=what) == 'inconclusive':
                             acc.inconclusive += 1
+                        if what not in ('leading-blank-lines', 'lines-not-separated-by-LF', 'too-few-columns-line'):
+                            # the same broken grid as the second grid of a document: if the document is rejected as a
+                            # whole, single=True must not hand out the first grid either
+                            n += 1
+                            t2 = 'ver:"%s"\nid,v\n@a,1\n\n' % ver + t
+                            if check_text(t2, acc, what=what + '@second-grid', broken_class=True) == 'inconclusive':
+                                acc.inconclusive += 1
                     except Violation as v:
                         acc.violation(v)
                     if n % 1501 == 1:
@@ -454,4 +464,5 @@ def replay(stage, case):
     if 'scalar' in case:
         check_scalar_text(case['scalar'], case['ver'])
     else:
-        check_text(case['text'], want_reject=('breaker' in case), what=case.get('breaker'))
+        check_text(case['text'], want_reject=('breaker' in case and '@second-grid' not in case['breaker']), what=case.get('breaker'),
+                   broken_class='breaker' in case)
